@@ -21,7 +21,8 @@
  *       of the verifier's linear walk (recomputed here with isa_decode) of the function that was executing
  *       -> the verifier accepted exactly this decode and the VM refused it (the last clause of C13).
  *       anywalk: the same against the walks of all functions.
- *   T <line> <k> phase=<load|verify|run>             per-case CPU budget used up (ITIMER_PROF); exit status 99
+ *   T <line> <k> phase=<load|verify|run|cleanup>     per-case CPU budget used up (ITIMER_PROF); exit status 99
+ *   (the R record is printed after vm_destroy / nvm_module_free: a crash during cleanup belongs to the case)
  *   O <hex>:<count> ...                              executed-opcode histogram (vm.verif_opcount) since the last O
  *   E <cases>                                        normal end of input
  */
@@ -73,7 +74,7 @@ static void on_prof(int sig) {
     char buf[96], *p = buf;
     *p++ = 'T'; *p++ = ' ';
     p = put_num(p, cur_line); *p++ = ' '; p = put_num(p, cur_k);
-    const char *ph = cur_phase == 0 ? " phase=load\n" : cur_phase == 1 ? " phase=verify\n" : " phase=run\n";
+    const char *ph = cur_phase == 0 ? " phase=load\n" : cur_phase == 1 ? " phase=verify\n" : cur_phase == 2 ? " phase=run\n" : " phase=cleanup\n";
     while (*ph) *p++ = *ph++;
     ssize_t r = write(1, buf, (size_t)(p - buf)); (void)r;
     _exit(99);
@@ -118,6 +119,8 @@ static FILE *devnull;
 static VmState vm;
 static unsigned long n_cases;
 
+static char recbuf[1400];
+
 static void one_case(long line, long k, const uint8_t *src, size_t n) {
     cur_line = line; cur_k = k; cur_phase = 0;
     printf("S %ld %ld\n", line, k); fflush(stdout);
@@ -128,20 +131,26 @@ static void one_case(long line, long k, const uint8_t *src, size_t n) {
     NvmModule *m = nvm_deserialize(buf, (uint32_t)n);
     free(buf);
     n_cases++;
+    /* the R record is printed only after all cleanup, so that a crash in vm_destroy / nvm_module_free
+     * still belongs to this case (last S without R) */
     if (!m) { arm(0); printf("R %ld %ld load=0\n", line, k); fflush(stdout); return; }
     cur_phase = 1;
     NvmVerifyResult vr = nvm_verify(m);
     if (!vr.ok) {
-        arm(0);
         vr.error_msg[NVM_VERIFY_ERROR_SIZE - 1] = 0;
         for (char *c = vr.error_msg; *c; c++) if (*c == '\n' || *c == '\r') *c = ' ';
-        printf("R %ld %ld load=1 verify=0 verr=%s\n", line, k, vr.error_msg); fflush(stdout);
-        nvm_module_free(m); return;
+        snprintf(recbuf, sizeof recbuf, "R %ld %ld load=1 verify=0 verr=%s\n", line, k, vr.error_msg);
+        nvm_module_free(m);
+        arm(0);
+        fputs(recbuf, stdout); fflush(stdout);
+        return;
     }
     if (m->import_count > 0) {
+        snprintf(recbuf, sizeof recbuf, "R %ld %ld load=1 verify=1 imports=%u\n", line, k, m->import_count);
+        nvm_module_free(m);
         arm(0);
-        printf("R %ld %ld load=1 verify=1 imports=%u\n", line, k, m->import_count); fflush(stdout);
-        nvm_module_free(m); return;
+        fputs(recbuf, stdout); fflush(stdout);
+        return;
     }
     cur_phase = 2;
     printf("V %ld %ld\n", line, k); fflush(stdout);
@@ -150,7 +159,6 @@ static void one_case(long line, long k, const uint8_t *src, size_t n) {
     vm.output = devnull;
     vm.verif_fuel = fuel;
     VmResult r = vm_execute(&vm);
-    arm(0);
     uint64_t steps = 0;
     for (int i = 0; i < 256; i++) { steps += vm.verif_opcount[i]; opsum[i] += vm.verif_opcount[i]; }
     /* state bounds named by the property's anchors */
@@ -180,12 +188,15 @@ static void one_case(long line, long k, const uint8_t *src, size_t n) {
     for (char *c = vm.error_msg; *c; c++) if (*c == '\n' || *c == '\r') *c = ' ';
     char rname[64]; snprintf(rname, sizeof rname, "%s", vm_error_string(r));
     for (char *c = rname; *c; c++) if (*c == ' ') *c = '_';
-    printf("R %ld %ld load=1 verify=1 imports=0 run=%d rname=%s ip=%u fn=%u steps=%llu inv=%s off=%ld onwalk=%d anywalk=%d msg=%s\n",
-           line, k, (int)r, rname, vm.ip, vm.current_fn, (unsigned long long)steps, inv, off, onw, anyw,
-           r == VM_OK ? "" : vm.error_msg);
-    fflush(stdout);
+    snprintf(recbuf, sizeof recbuf,
+             "R %ld %ld load=1 verify=1 imports=0 run=%d rname=%s ip=%u fn=%u steps=%llu inv=%s off=%ld onwalk=%d anywalk=%d msg=%s",
+             line, k, (int)r, rname, vm.ip, vm.current_fn, (unsigned long long)steps, inv, off, onw, anyw,
+             r == VM_OK ? "" : vm.error_msg);
+    cur_phase = 3;
     vm_destroy(&vm);
     nvm_module_free(m);
+    arm(0);
+    fputs(recbuf, stdout); fputc('\n', stdout); fflush(stdout);
 }
 
 static uint8_t *slurp(const char *path, size_t *out) {
